@@ -1,6 +1,8 @@
 import Driver.Proto
 import Driver.Ledger
 import Driver.LedgerOracle
+import Driver.Pages
+import Driver.Fmv
 open Driver
 
 def runLedger (c : Case) : Res :=
@@ -19,6 +21,8 @@ def runLedger (c : Case) : Res :=
 def dispatch (c : Case) : Res :=
   match c.family with
   | "ledger" => runLedger c
+  | "pages" => runPages c
+  | "fmv" => runFmv c
   | f => { verdict := "BADCASE", msg := s!"unknown family {f}" }
 
 def main : IO Unit := do
